@@ -167,8 +167,7 @@ def check_fill_helpers(ctx):
         for axis, along in ((None, 'c'), (0, 'r')):
             arr = AV(ty='ndarray', axes=('r', 'c'), store='param:arr', dtype='int')
             args = dict(arr=arr, fill_val=AV(ty='int', marker_param=True))
-            if axis is not None:
-                args['axis'] = const(axis)
+            args['axis'] = const(axis if axis is not None else -1)
             ith = ctx.entry(fh.qualname, args=args)
             r = ith.result
             f = r.filled if r is not None else None
